@@ -322,6 +322,9 @@ class Builtins:
     def b_range(self, st, pos, kw):
         cs = [conc(p) for p in pos]
         if any(c is NotConcrete for c in cs):
+            if len(pos) == 1 and self.E.is_int(pos[0]):
+                n = S(pos[0]); k = z3.Int("k!rg")
+                yield ("val", SList(z3.If(n < 0, 0, n), z3.Lambda([k], k), lambda t: t), st); return
             raise Unsupported("symbolic range")
         yield ("val", list(range(*cs)), st)
 
@@ -330,6 +333,9 @@ class Builtins:
         if isinstance(x, (list, tuple)):
             ts = [self.E.truth(v) for v in x]
             yield ("val", z3.And(*ts) if ts else True, st)
+        elif isinstance(x, (SList, LRef)):
+            c = self.E.contents(x, st); k = z3.Int("k!all")
+            yield ("val", z3.ForAll([k], z3.Implies(z3.And(0 <= k, k < c.n), self.E.truth(c.mk(c.el[k])))), st)
         else:
             raise Unsupported("all")
 
@@ -338,6 +344,9 @@ class Builtins:
         if isinstance(x, (list, tuple)):
             ts = [self.E.truth(v) for v in x]
             yield ("val", z3.Or(*ts) if ts else False, st)
+        elif isinstance(x, (SList, LRef)):
+            c = self.E.contents(x, st); k = z3.Int("k!any")
+            yield ("val", z3.Exists([k], z3.And(0 <= k, k < c.n, self.E.truth(c.mk(c.el[k])))), st)
         else:
             raise Unsupported("any")
 
